@@ -3,7 +3,9 @@ import Shentu.EVM.Impl
 /-
   VM driver (engine "vm", properties C16/C17/C18): reads the trace of harness/cmd/vmrun (one JSON
   object per executed program), runs the Lean model of the interpreter on the same program and
-  compares outcome, return data, storage, logs and remaining gas.  Monitors are evaluated on the
+  compares outcome, return data, storage, logs, every account (created ones with their code) and remaining gas.
+  The address CREATE derives (SHA-256 based) is an input: the trace carries the table (creator, sequence number) ->
+  address the interpreter used; the driver checks that the table is a function and injective.  Monitors are evaluated on the
   implementation's result alone.  `khash` lines validate the Lean Keccak-256 against Go's.
   Flags: --strict-logs  report logs that reached the event sink before the call failed as findings.
 -/
@@ -50,7 +52,9 @@ def parseStorage (j : Json) : List (Nat × Nat) :=
 
 def parseWorld (j : Json) : World :=
   (J.arr j).map (fun a => { addr := hexNat (J.strOf a "addr"), code := unhex (J.strOf a "code"),
-                            balance := (J.intOf a "balance").toNat, storage := parseStorage (J.get a "storage") })
+                            balance := (J.intOf a "balance").toNat, storage := parseStorage (J.get a "storage"),
+                            allowed := (J.arrOf a "allowed").map (fun h => hexNat (J.str h)),
+                            forebear := if J.has a "forebear" then some (hexNat (J.strOf a "forebear")) else none })
 
 def storageStr (st : List (Nat × Nat)) : String :=
   "[" ++ ",".intercalate (st.map (fun (k, v) => natHex k ++ "=" ++ natHex v)) ++ "]"
@@ -133,6 +137,18 @@ def handleExec (ds : DS) (j : Json) : IO DS := do
     caller := hexNat (J.strOf j "caller"), callee := hexNat (J.strOf j "callee"), origin := hexNat (J.strOf env "origin"),
     value := (J.intOf j "value").toNat, height := (J.intOf env "height").toNat,
     time := ((J.intOf env "time") % (2 ^ 64 : Nat)).toNat, chainId := hexNat (J.strOf env "chainid_num") }
+  -- ---------------- the CREATE address oracle: (creator, sequence number) -> address, as the interpreter derived them
+  let freshTab : List (Nat × Nat × Nat) := (J.arrOf res "fresh").filterMap (fun e => match J.arr e with
+    | [c, q, a] => some (hexNat (J.str c), (J.int q).toNat, hexNat (J.str a))
+    | _ => none)
+  let menv := { menv with fresh := fun c q => match freshTab.find? (fun e => e.1 == c && e.2.1 == q) with
+    | some e => e.2.2
+    | none => 2 ^ 160 + q }       -- not an address: a model that asks for a derivation the interpreter did not make shows up as a difference
+  if !freshTab.isEmpty then
+    ds := stat ds "vm.create_oracle_entries"
+    let bad := freshTab.any (fun e => freshTab.any (fun f => (e.1 == f.1 && e.2.1 == f.2.1) != (e.2.2 == f.2.2)))
+    if bad then
+      ds ← finding ds "monitor" "C16" "create:address_oracle_consistent" id s!"the addresses derived by CREATE are not a one-to-one function of (creator, sequence number): {(J.get res "fresh").compress}"
   let preW : World :=
     if J.has j "pre" then parseWorld (J.get j "pre")
     else [{ addr := menv.caller, balance := (J.intOf env "caller_balance").toNat }, { addr := menv.callee, code := menv.code, storage := pre }]
@@ -179,7 +195,11 @@ def handleExec (ds : DS) (j : Json) : IO DS := do
     let sr := execTop { menv with q := Quirks.spec, fuelCap := gas + 1000 } (2 ^ 60) preW
     let sStorage := normStorage (((sr.world.get menv.callee).map (·.storage)).getD [])
     let gasDependent := sr.seen &&& ((1 <<< 0x5a) ||| (1 <<< 0x45)) != 0
+    -- a constructor that runs out of gas fails the creation, not the creator: the implementation's outcome is then "ok"
+    -- although gas decided; the specification run (unlimited gas) says nothing about such a program
+    let innerOog := r.seen &&& (1 <<< 256) != 0
     if gasDependent then ds := stat ds "spec.skipped_reads_gas"
+    else if innerOog then ds := stat ds "spec.skipped_constructor_out_of_gas"
     else if outcomeStr sr == "unsupported" then ds := stat ds "spec.skipped_unsupported"
     -- the specification run is cut after gas + 1000 instructions: a program that the implementation stopped for another
     -- reason (e.g. the value transfer failed and the code then ran out of gas) may need more; nothing is concluded from it
@@ -218,10 +238,15 @@ def handleExec (ds : DS) (j : Json) : IO DS := do
           else if code == "IllegalWrite" && has 12 then 12
           else if (code == "InvalidBlockNumber" || code == "BlockNumberOutOfRange") && has 14 then 14
           else if code == "panic" && has 5 then 5
+          else if code == "DuplicateAddress" && has 20 then 20
+          else if code == "NonExistentAccount" && has 21 then 21
+          else if code == "IllegalWrite" && has 18 then 18
           else if code == "ok" && has 4 then 4
           else if has 7 then 7
           else 0
-        let devId := if byCode != 0 then byCode else sr.dev
+        -- the deviation points of CREATE / CREATE2 are noted only where the two behaviours really part
+        let createDev : Nat := ([20, 21, 22, 19, 18, 16, 17].find? has).getD 0
+        let devId := if byCode != 0 && byCode != 7 then byCode else if createDev != 0 then createDev else if byCode != 0 then byCode else sr.dev
         ds ← finding ds "monitor" "C16" ("spec:" ++ devName devId) id s!"{d} code={codeHex} input={J.strOf j "input"} gaslimit={gas}"
   let gasDiff := (r.gasLeft : Int) != implGas
   if !diffs.isEmpty then
@@ -241,7 +266,7 @@ def handleExec (ds : DS) (j : Json) : IO DS := do
         ("ret", hexOf r.ret), ("logs", toString mLogs.length), ("storage", storageStr mStorage)]).compress)
   return ds
 
-/-- Profile "create": the facts that hold by construction of the generated factory program (CREATE is outside the
+/-- Profile "create": the facts that hold by construction of the generated factory program (independent of the
     interpreter model) against what the real interpreter did. -/
 def handleExpect (ds : DS) (j : Json) : IO DS := do
   let e := J.get j "expect"
@@ -257,7 +282,7 @@ def handleExpect (ds : DS) (j : Json) : IO DS := do
   let word0 := hexNat ((ret.take 64).toString)
   let word1 := hexNat ((ret.drop 64).toString)
   let note := J.strOf j "note"
-  let mut ds := stat ds "vm.exec"
+  let mut ds := ds
   ds := stat ds ("create." ++ J.strOf e "init" ++ (if J.boolOf e "call_first" then ".afterCall" else "") ++ (if J.boolOf e "nested" then ".nested" else ""))
   if J.strOf res "outcome" != "ok" then
     ds ← finding ds "monitor" "C16" "create:factory_outcome" id s!"{note}: the factory ended with {J.strOf res "outcome"} (a failed creation pushes 0 and execution goes on)"
@@ -295,6 +320,66 @@ def handleExpect (ds : DS) (j : Json) : IO DS := do
     ds ← finding ds "monitor" "C16" "create:return_data_buffer" id s!"{note}: RETURNDATASIZE after CREATE is {word1}, the specification gives {J.intOf e "returndatasize"}"
   return ds
 
+/-- Profile "create", factories with contract metadata (a list of permitted code hashes): what must hold by construction
+    after a child whose code is / is not on the list. -/
+def handleExpectMeta (ds : DS) (j : Json) : IO DS := do
+  let e := J.get j "expect"
+  let res := J.get j "res"
+  let id := toString (J.intOf j "id")
+  let derived := J.strOf e "derived"
+  let post := J.arrOf res "post"
+  let acct := post.find? (fun a => J.strOf a "addr" == derived)
+  let factory := post.find? (fun a => J.strOf a "addr" == J.strOf e "factory")
+  let note := J.strOf j "note"
+  let outcome := J.strOf res "outcome"
+  let mut ds := stat ds ("createMeta." ++ J.strOf e "kind" ++ (if J.boolOf e "nested" then ".nested" else ""))
+  if outcome == "timeout" || outcome == "fatal" || outcome == "panic" then return ds
+  let fbal := (factory.map (fun f => J.intOf f "balance")).getD (-1)
+  if J.boolOf e "allowed" then
+    if outcome != "ok" then
+      ds ← finding ds "monitor" "C16" "create:permitted_child_deployed" id s!"{note}: the creation of a contract whose code hash is permitted ended with {outcome}"
+    else
+      match acct with
+      | none => ds ← finding ds "monitor" "C16" "create:permitted_child_deployed" id s!"{note}: no account at {derived} after a permitted creation"
+      | some a =>
+        if J.strOf a "code" != J.strOf e "runtime" || J.intOf a "balance" != J.intOf e "value" || normStorage (parseStorage (J.get a "storage")) != [(0, 1)] then
+          ds ← finding ds "monitor" "C16,C18" "create:permitted_child_deployed" id s!"{note}: the new contract has code {J.strOf a "code"}, balance {J.intOf a "balance"}, storage {(J.get a "storage").compress}; expected code {J.strOf e "runtime"}, balance {J.intOf e "value"}, slot 0 = 1"
+      if fbal != J.intOf e "factory_balance" - J.intOf e "value" then
+        ds ← finding ds "monitor" "C16,C18" "create:permitted_child_deployed" id s!"{note}: the factory holds {fbal} after endowing {J.intOf e "value"} of {J.intOf e "factory_balance"}"
+  else
+    -- a refused child: whatever the outcome of the transaction, nothing of it is left
+    ds := stat ds "mon.c18.rejected_child"
+    match acct with
+    | some a => ds ← finding ds "monitor" "C18,C16" "create:rejected_child_leaves_state" id s!"{note}: an account exists at {derived} after InitChildCode refused its code (outcome {outcome}; code '{J.strOf a "code"}', balance {J.intOf a "balance"}, storage {(J.get a "storage").compress})"
+    | none => pure ()
+    if fbal != J.intOf e "factory_balance" then
+      ds ← finding ds "monitor" "C18,C16" "create:rejected_child_leaves_state" id s!"{note}: the factory holds {fbal} instead of its {J.intOf e "factory_balance"} after the refused creation (outcome {outcome})"
+    if outcome == "ok" then
+      -- the transaction went on: then the creation must have been reported as failed (0 pushed)
+      let ret := J.strOf res "ret"
+      if hexNat ((ret.take 64).toString) != 0 then
+        ds ← finding ds "monitor" "C16" "create:rejected_child_leaves_state" id s!"{note}: CREATE pushed {(ret.take 64).toString} for a refused child"
+  return ds
+
+/-- Profile "create", the same factory called by two senders (two transactions, the CVM's nonce option as x/cvm sets it):
+    in the EVM the second call succeeds like the first and deploys at another address. -/
+def handleExpectSenders (ds : DS) (j : Json) : IO DS := do
+  let e := J.get j "expect"
+  let res := J.get j "res"
+  let id := toString (J.intOf j "id")
+  let note := J.strOf j "note"
+  let prior := J.strOf (J.get j "prior") "outcome"
+  let outcome := J.strOf res "outcome"
+  let mut ds := stat ds ("createSenders." ++ (if J.boolOf e "same_nonce" then "sameSequence" else "otherSequence") ++ (if J.boolOf e "nested" then ".nested" else ""))
+  if outcome == "timeout" || outcome == "fatal" || outcome == "panic" then return ds
+  if prior != "ok" then
+    ds ← finding ds "monitor" "C16" "create:factory_outcome" id s!"{note}: the first sender's call of the factory ended with {prior}"
+  else if outcome != "ok" then
+    ds ← finding ds "monitor" "C16" "create:address_unique_across_senders" id s!"{note}: the first sender's call of the factory deployed a contract, the second sender's identical call ended with {outcome} (the address CREATE derives depends on the sender's sequence number only, not on the sender: {(J.get res "fresh").compress})"
+  else if hexNat (((J.strOf res "ret").take 64).toString) == 0 then
+    ds ← finding ds "monitor" "C16" "create:address_unique_across_senders" id s!"{note}: the second sender's CREATE pushed 0"
+  return ds
+
 def handleKhash (ds : DS) (j : Json) : IO DS := do
   let ds := stat ds "keccak.checked"
   let got := hexOf (Keccak.keccak256 (unhex (J.strOf j "data")))
@@ -312,7 +397,10 @@ partial def loop (hIn : IO.FS.Stream) (ds : DS) : IO DS := do
   | .ok j =>
     let ds := { ds with line := ds.line + 1 }
     let ds ← match J.strOf j "k" with
-      | "exec" => if J.has j "expect" then handleExpect ds j else handleExec ds j
+      | "exec" => do
+        let ds ← handleExec ds j
+        if J.has j "expect" then (if J.has (J.get j "expect") "meta" then handleExpectMeta ds j
+                                 else if J.has (J.get j "expect") "senders" then handleExpectSenders ds j else handleExpect ds j) else pure ds
       | "khash" => handleKhash ds j
       | _ => pure ds
     loop hIn ds
